@@ -381,7 +381,7 @@ OBLIGATIONS = [
     Ob("C05.error_page", "error_page",
        cases={"quick": [{"exc": e, "n": 1} for e in EXC] + [{"exc": "Generic", "n": 2}],
               "thorough": [{"exc": e, "n": 2} for e in EXC] + [{"exc": e, "n": 3} for e in ("InvalidHeader", "InvalidRequestLine")]},
-       timeout={"quick": 1800, "thorough": 4200}, bound="every exception class handled by Worker.handle_error with a payload of 1 (two classes: 2; thorough 2 / 3) "
+       timeout={"quick": 1800, "thorough": 7200}, bound="every exception class handled by Worker.handle_error with a payload of 1 (two classes: 2; thorough 2 / 3) "
                           "characters, each chosen by the solver from 14 representatives {a < & \" ' CR LF NUL 0xFF U+0100 % SP "
                           "U+1F600 lone-surrogate}"),
     Ob("C05.error_page.twin", "error_page_twin", cases=[{"exc": "InvalidHeader", "n": 2}], expect="refute", timeout=120),
